@@ -7,6 +7,11 @@ import PsiProofs.Helper.C09_Book
 Same model as C01 (`PsiModel/Stim.lean`).  `Stim.total g = some T` singles out the stimuli with
 a sample count (GateFactory, EnvelopeFactory, FixedWaveform incl. Repeat).  Histories are
 arbitrary chunk lists (`drawAll` / `stateAfter`), including draws past the end.
+
+The hypothesis `g.WFs` of the theorems below is implied by the constructor guard `g.WF`
+(`Stim.WF.wfs`: `cycle > 0`, `2·rise ≤ duration`, `fm_samples > 0`) for every tree, including trees
+with SquareWaveEnvelopeFactory nodes, since the `square_wave` fragment law is proved (C01,
+`square_fragment_eq_slice`).
 -/
 namespace Psi.Stim
 open Psi.Chunk
@@ -49,6 +54,8 @@ theorem complete_iff_drawn_ge_total (g : Stim) (h : g.WFs) (T : Nat) (hT : g.tot
   simp
 
 example : (Stim.gate 3 4 0 (.leaf 0 0)).total = some 7 := rfl
+example : (Stim.gate 3 4 0 (.sqenv 1 ⟨7 / 2, 2⟩ 0 (.leaf 0 0))).WFs :=
+  Stim.WF.wfs (g := .gate 3 4 0 (.sqenv 1 ⟨7 / 2, 2⟩ 0 (.leaf 0 0))) ⟨by decide +kernel, trivial⟩
 example : (stateAfter stimGen (Stim.gate 3 4 0 (.leaf 0 0)) [2, 4, 5]).remaining = .fin 0 := by decide
 example : (stateAfter stimGen (Stim.gate 3 4 0 (.leaf 0 0)) [2, 4]).complete = false := by decide
 
